@@ -65,6 +65,7 @@ type checker struct {
 	classes  *classSet
 	deadline time.Time
 	capped   sync.Once
+	done     atomic.Bool
 	famCnt   sync.Map // family -> *atomic.Int64
 }
 
@@ -82,13 +83,21 @@ func (k *checker) famCounts() map[string]int64 {
 	return out
 }
 
+// expired is sticky: once the deadline has passed every caller stops.
 func (k *checker) expired() bool {
+	if k.done.Load() {
+		return true
+	}
 	if time.Now().After(k.deadline) {
+		k.done.Store(true)
 		k.capped.Do(func() { k.run.Cap("internal deadline reached before the enumeration was complete") })
 		return true
 	}
 	return false
 }
+
+// stop is the cheap per-item form: reads the sticky flag always, the clock every 64th item.
+func (k *checker) stop(i int) bool { return k.done.Load() || (i%64 == 0 && k.expired()) }
 
 // classOf: distinct (family, set of executed opcodes, outcome, halt reason, class of the returned word).
 func classOf(c Case, ref *refevm.Result, impl *implOut) (string, bool) {
@@ -154,7 +163,7 @@ func (k *checker) report(c Case, mm *Mismatch, warm bool) {
 
 func (k *checker) runCases(cases []Case, gasBoundary bool) {
 	ev.ParallelFor(len(cases), func(i int) {
-		if i%64 == 0 && k.expired() {
+		if k.stop(i) {
 			return
 		}
 		k.evaluate(cases[i], gasBoundary, false)
@@ -176,7 +185,7 @@ func (k *checker) runPrograms(family string, alpha []symbol, depth int, gas uint
 		cnt := 0
 		enumPrograms(alpha, j.length, j.first, func(code []byte) {
 			cnt++
-			if cnt%256 == 0 && k.expired() {
+			if k.stop(cnt) {
 				return
 			}
 			k.evaluate(Case{Family: family, Code: append([]byte{}, code...), Input: input, Gas: gas, Ep: ep}, false, true)
